@@ -32,8 +32,8 @@ import (
 
 func init() {
 	register("C13", core.Spec{
-		Decides:    "the fault clause of C13 for rac.Writer and its callee rac.ChunkWriter, as structure: (S1) every non-nil error produced by the underlying io.Writer / io.ReadWriter / io.Seeker values or io.Copy — directly, through helpers that return it unstored (computed summaries), or through the ChunkWriter — is stored in the owner's sticky `err` field on every path before an exported method (Writer.Write/Close, ChunkWriter.AddChunk/AddResource/Close) returns; (S2) every exported method consults the sticky error (directly, through initialize(), or through the `closed` flag) before its first effect on the underlying writer, the pending buffer or its own state, Writer.Close runs each I/O stage only under `w.err == nil`, and no store can clear or overwrite a set sticky error with a possibly-nil value; (S3) no call in the writer files drops an error result; (S4) Writer.Write passes writeBuffer.compact() on every exit after writeBuffer.extend(p); (S5) the arity budgets of gather (255 / 254 for long codecs), writeIndex's arity guard, the nodeWriter buffer, the reader's rNode buffer and the node-size formula agree with each other and with the specification's maximum arity 255",
-		NotDecided: "the round trip itself and spec-validity of the bytes written: writeBuffer arithmetic, zero elision, the grow-then-cut search for CChunkSize, index layout and offsets, padding, checksums (the corruption with CChunkSize and many small writes reported in the property text is beyond these rules). Errors of CodecWriter (Compress, Cut, WrapResource, Close) are not I/O sources: the code deliberately returns a Compress error without making it sticky, and whether retrying after it is actually safe is not decided. Faults that surface as panics rather than errors are not decided",
+		Decides:    "the fault clause of C13 for rac.Writer and its callee rac.ChunkWriter, as structure: (S1) every non-nil error produced by the underlying io.Writer / io.ReadWriter / io.Seeker values or io.Copy — directly, through helpers that return it unstored (computed summaries), or through the ChunkWriter — is stored in the owner's sticky `err` field on every path before an exported method (Writer.Write/Close, ChunkWriter.AddChunk/AddResource/Close) returns; (S2) every exported method consults the sticky error (directly, through initialize(), or through the `closed` flag) before its first effect on the underlying writer, the pending buffer or its own state, Writer.Close runs each I/O stage only under `w.err == nil`, and no store can clear or overwrite a set sticky error with a possibly-nil value; (S3) no call in the writer files drops an error result; (S4) Writer.Write passes writeBuffer.compact() on every exit after writeBuffer.extend(p); (S5) the arity budgets of gather (255 / 254 for long codecs), writeIndex's arity guard, the nodeWriter buffer, the reader's rNode buffer and the node-size formula agree with each other and with the specification's maximum arity 255; and, of the round trip, these structural necessary conditions: (T.tree, c13_tree.go) gather never builds a branch node around a single child that is itself a branch (the anti-loop rule that ChunkReader enforces), the remainder of a level is carried into the next level, calcEncodedSize and writeIndex traverse the tree on the same schedule; (B, c13_buf.go) the two-slice pending buffer prev[p:] ++ curr is consumed in stream order (curr only when prev[p:] is or becomes empty, the amount taken from curr is the count minus what prev held, peek hands out (prev-part, curr-prefix) in that order, length() is len(prev)-p+len(curr)), prev never aliases the caller's slice and curr is released only after being copied; (Z.lead) the zeroes skipped after a chunk are added to that chunk's dRangeSize, after the chunk's own bytes were consumed; (Z.strip, D.stash, c13_more.go) trailing-zero elision and racdict's stash; (E.drain, c13_eof.go) with eof == true the chunking functions return success only behind an edge implying that nothing is pending, edges being excluded by constant propagation under eof == true with the computed summary of tryCChunk",
+		NotDecided: "the round trip itself and spec-validity of the bytes written as values: compression and Cut, the grow-then-cut search for CChunkSize, index offsets and tags (that calcEncodedSize's arithmetic yields the written positions, dataCOffset/indexCOffset, resourceToTag), padding, checksums; in gather, that a level above the leaves holds at least two nodes when the root is built from a whole level and that a group closed on budget overflow holds at least two nodes (both true by arithmetic on the budget constants, not re-derived); that consecutive groups are contiguous (i = j). Errors of CodecWriter (Compress, Cut, WrapResource, Close) are not I/O sources: the code deliberately returns a Compress error without making it sticky, and whether retrying after it is actually safe is not decided. Faults that surface as panics rather than errors are not decided",
 		Assumptions: []string{
 			"go/types, go/cfg and go/ssa (x/tools v0.29.0) model Go control flow and values faithfully",
 			"an I/O source is a call whose resolved callee belongs to package io or os (interface methods of io.Writer/io.ReadWriter/io.Seeker/io.Reader, io.Copy, …); the sticky field of an owner type is its unique field of type error",
@@ -116,6 +116,11 @@ func runC13(c *core.Ctx) {
 	s.ruleErrcheck() // S3
 	s.ruleBuffer()   // S4
 	s.ruleConsts()   // S5
+	t1 := time.Now()
+	s.ruleTree() // T.tree (c13_tree.go)
+	s.ruleBuf()  // B, Z.lead (c13_buf.go)
+	s.ruleEof()  // E.drain (c13_eof.go)
+	c.Analysed("t_tree_buf_s", time.Since(t1).Seconds())
 	runC13More(c)
 }
 
